@@ -18,7 +18,8 @@ RULE = 'distinct protocol lines on non-empty trees on which the implementation r
 TRUSTED = ['correspondence harness (pv.engine, pv.proto), generators and deep snapshots of pv.props.c15',
            'Lean driver parser/printer (PygModel/Basic.lean, TreeDriver.lean)']
 ASSUMPTIONS = ['python dict semantics (insertion order; d[k]=v overwrites in place or appends) as DA.lookup / DA.set',
-               'the class of the tree (dict / Dict / dictattr) is not modelled except for the dotted-path fallback of dictattr / Dict item access (Tree.getItemC): the runner checks type(result) is type(tree) and that new branches get the class of the tree',
+               'the class of the tree (dict / Dict / dictattr) is not modelled except for the dotted-path fallback of dictattr / Dict item access (Tree.getItemC): the runner checks type(result) is type(tree) and, for tree_setitem / tree_update / table_to_tree results, that every branch inside has the class it must have (a copy of a branch of t keeps its class, a new branch gets the class of the root)',
+               'key ORDER of every mapping in a reply is compared (an order-only difference is reported as a divergence: python == and the statement ignore it, the theorems state ordered equality)',
                'str.split(\'.\') is String.splitOn "." (string forms of tree_getitem / tree_setitem are split by the driver)',
                'leaves are None / ints / strings / lists; the ignore list holds None and strings (in_ uses eq, modelled as equality)',
                'aliasing of leaf objects between operands and result is not modelled (only dict nodes are snapshotted deeply)',
@@ -177,6 +178,39 @@ def gen_table_cases(rng, tier):
             rows.append({k: v for k, v in rows[0].items() if k != names[0]})       # unbound name -> KeyError
         # rows with unique paths: the tree, and the table read back from it with the same pattern
         yield dict(tag='totree-%d' % w, lines=['(tree totree %s %s)' % (enc(pat), enc(rows))])
+    # table_to_tree(t, pattern, rows, base = type(t)) on a BASE tree: the rows are written into a copy of t; their paths run through
+    # the existing nested branches of t (review s2, C15 2-1: the caller's branches were written - the F7 mechanism)
+    for _ in range(n // 2):
+        t = rand_tree(rng, rng.choice([2, 3, 3]))
+        pat, rows = rand_base_rows(rng, t)
+        yield dict(tag='totree-on-base', lines=['(tree totreeon %s %s %s %d)' % (enc(t), enc(pat), enc(rows), rng.choice([0, 1, 2]))])
+
+
+def rand_base_rows(rng, t):
+    """a pattern and rows whose paths follow an existing path of t for a while (literal or bound segments), then write a leaf"""
+    ps = list(paths(t))
+    p = list(rng.choice(ps))
+    if rng.random() < 0.4:
+        p = p + [rng.choice(KEYS[:4])]                      # through a leaf of t
+    elif rng.random() < 0.3 and len(p) > 1:
+        p = p[:-1]                                          # the leaf lands on a branch of t
+    segs, bind = [], {}
+    for i, k in enumerate(p):
+        if rng.random() < 0.6:
+            segs.append('%%n%d' % i)
+            bind['n%d' % i] = k
+        else:
+            segs.append(k.replace('/', '_'))
+    segs.append('%leaf')
+    rows, seen = [], set()
+    for _ in range(rng.choice([1, 2, 3])):
+        row = {n: (k if rng.random() < 0.7 else rng.choice(KEYS[:4])) for n, k in bind.items()}
+        row['leaf'] = rng.choice(['p', 'q', 1, None])
+        key = tuple(sorted((n, v) for n, v in row.items() if n != 'leaf'))
+        if key not in seen:
+            seen.add(key)
+            rows.append(row)
+    return '/'.join(segs), rows
 
 
 def _get(t, p):
@@ -260,13 +294,23 @@ def run_line(state, sx):
             return 'mutated update: %s' % enc(_plain(u))
         if type(res) is not type(t):
             return 'wrongtype %s' % type(res).__name__
+        bad = _classes_update(res, t, type(t))
+        if bad:
+            return 'wrongtype %s inside the result' % bad
+        out = 'ok ' + enc(_plain(res))
+        if op == 'updateh':
+            # freshness of the result (review s2, C15 2-5): write into EVERY branch of the result, then re-read the operands
+            _scribble(res)
+            if snapshot(t) != st or snapshot(u) != su:
+                return 'result shares a branch with an operand: writing into the result changed t=%s u=%s' % (enc(_plain(t)), enc(_plain(u)))
+            return out
         if cls == 1 and not ig:
             alt = t + u
             if snapshot(t) != st or snapshot(u) != su:
                 return 'mutated by Dict.__add__'
             if _plain(alt) != _plain(res) or type(alt) is not Dict:
                 return 'Dict.__add__ differs from tree_update: %s' % enc(_plain(alt))
-        return 'ok ' + enc(_plain(res))
+        return out
     if op == 'totable':
         from pyg_base import tree_to_table
         t, pat = proto.dec(args[0]), proto.dec(args[1])
@@ -275,11 +319,33 @@ def run_line(state, sx):
         rows = tree_to_table(t, pat)
         if snapshot(t) != st:
             return 'mutated tree: %s' % enc(_plain(t))
-        return 'ok ' + enc([tuple(r.get(n) for n in names) for r in rows])
+        return 'ok ' + enc([dict(r) for r in rows])        # whole rows, columns in their order (restrict_spec pins it)
     if op == 'totree':
         from pyg_base._table_to_tree import table_to_tree
         pat, rows = proto.dec(args[0]), proto.dec(args[1])
         return 'ok ' + enc(_plain(table_to_tree(None, pat, rows)))
+    if op == 'totreeon':
+        from pyg_base._table_to_tree import table_to_tree
+        cls = int(args[3]) if len(args) > 3 else 0
+        t, pat, rows = build(proto.dec(args[0]), cls, mixed), proto.dec(args[1]), proto.dec(args[2])
+        st, sr = snapshot(t), _copy.deepcopy(rows)
+        try:
+            res = table_to_tree(t, pat, rows, base=type(t))
+        finally:
+            if snapshot(t) != st:
+                return 'mutated tree: %s' % enc(_plain(t))
+            if rows != sr:
+                return 'mutated rows'
+        if type(res) is not type(t):
+            return 'wrongtype %s' % type(res).__name__
+        bad = _classes_update(res, t, type(t))
+        if bad:
+            return 'wrongtype %s inside the result' % bad
+        out = 'ok ' + enc(_plain(res))
+        _scribble(res)
+        if snapshot(t) != st:
+            return 'result shares a branch with the base tree: writing into the result changed t=%s' % enc(_plain(t))
+        return out
     return 'bad-op'
 
 
@@ -295,17 +361,57 @@ def _classes(x, c):
     return None
 
 
+def _classes_update(res, t, root):
+    """classes of the branches of a tree built on a copy of t: a branch that t has at the same place keeps t's class there
+    (`copy`), every other branch is created by `base()` = the class of the root"""
+    if isinstance(res, dict):
+        want = type(t) if isinstance(t, dict) else root
+        if type(res) is not want:
+            return type(res).__name__
+        for k, v in res.items():
+            b = _classes_update(v, t.get(k) if isinstance(t, dict) else None, root)
+            if b:
+                return b
+    return None
+
+
+def _scribble(x):
+    """item assignment into every dict node of x"""
+    if isinstance(x, dict):
+        for v in list(x.values()):
+            _scribble(v)
+        dict.__setitem__(x, '__scribble__', 0)
+
+
 def _plain(x):
     if isinstance(x, dict):
         return {k: _plain(v) for k, v in x.items()}
     return x
 
 
+def _ordered(x):
+    """canonical form that KEEPS the order of the entries of every dict (proto.canon sorts them): the model claims the key order"""
+    if isinstance(x, str):
+        return proto.canon_cell(x, False)
+    if x and x[0] == 'D':
+        return ('D',) + tuple((kv[0], _ordered(kv[1])) for kv in x[1:])
+    return (x[0],) + tuple(_ordered(y) for y in x[1:])
+
+
 def compare(case, i, line, ir, mr):
-    if proto.same_reply(ir, mr, numeric=False):
+    if ir == mr:
         return None
-    if ir.startswith('mutated') or ir.startswith('wrongtype') or ir.startswith('Dict.__add__'):
-        return 'operand modified / wrong class: %s' % ir
+    if ir.startswith('ok ') and mr.startswith('ok '):
+        try:
+            if _ordered(proto.parse(ir[3:])) == _ordered(proto.parse(mr[3:])):
+                return None
+        except Exception:
+            pass
+    if ir.startswith('mutated') or ir.startswith('wrongtype') or ir.startswith('Dict.__add__') or ir.startswith('result shares'):
+        return 'operand modified / wrong class / result not fresh: %s' % ir
+    if proto.same_reply(ir, mr, numeric=False) and not case.get('tag', '').endswith('empty-branches'):
+        # python == on dicts ignores the order, and so does the statement; the model (ordered equality in the theorems) pins it
+        return ('divergence', 'same mapping, different KEY ORDER: implementation %s, model %s' % (ir, mr))
     if line.startswith('(tree totable') and ir.startswith('ok ') and mr.startswith('ok '):
         a, b = proto.parse(ir[3:]), proto.parse(mr[3:])
         if isinstance(a, list) and isinstance(b, list) and sorted(map(repr, a)) == sorted(map(repr, b)):
@@ -385,6 +491,15 @@ def laws(rng, tier, ctx):
         want = ref_merge(t0, u0, ig)
         if _plain(res) != want:
             yield Finding('violation', case, 'tree_update = %s, recursive merge = %s' % (enc(_plain(res)), enc(want)))
+        elif _items_ordered(res) != _items_ordered(want):
+            yield Finding('divergence', case, 'tree_update = %s has the keys of the recursive merge %s in another ORDER' % (enc(_plain(res)), enc(want)))
+        bad = _classes_update(res, t, type(t))
+        if bad:
+            yield Finding('violation', case, 'tree_update result holds a branch of class %s where the tree\'s own / the root\'s class is due' % bad)
+        _scribble(res)
+        if snapshot(t) != st or snapshot(u) != su:
+            yield Finding('violation', case, 'the result of tree_update shares a branch with an operand (writing into the result changed it)')
+            continue
         if type(res) is not type(t):
             yield Finding('violation', case, 'tree_update returned a %s for a %s' % (type(res).__name__, type(t).__name__))
         if not idem:
@@ -402,8 +517,11 @@ def laws(rng, tier, ctx):
         names = [sg[1:] for sg in segs if sg.startswith('%')]
         last_wild = segs[-1].startswith('%')
         rows, seen = [], set()
+        # key cells are strings: the property quantifies over "trees over string keys" (an int / None key cell happens to work, a tuple
+        # cell on a non-last wildcard raises KeyError under the default base dictattr, whose [] reads a tuple as several keys)
+        kpool = ['p', 'q', 'r', 'lit']
         for _ in range(rng.choice([1, 2, 3, 5, 8])):
-            row = {n: rng.choice(['p', 'q', 'r', 'lit']) for n in names}
+            row = {n: rng.choice(kpool) for n in names}
             if last_wild:
                 row[names[-1]] = rng.choice(['p', 'q', 1, 2, None, [1, 2], 'lit'])
             path = tuple(row[sg[1:]] if sg.startswith('%') else sg for sg in segs[:-1])
@@ -428,6 +546,10 @@ def laws(rng, tier, ctx):
             yield Finding('violation', dict(tag='law-tree-table-%d' % w, lines=['(tree totable %s %s)' % (enc(_plain(tree)), enc(pattern))]),
                           'table_to_tree(tree_to_table(t, P), P) != t for a tree all of whose items match P (pattern %s)' % pattern)
     yield count
+
+
+def _items_ordered(x):
+    return [(k, _items_ordered(v)) for k, v in x.items()] if isinstance(x, dict) else ('leaf', repr(x))
 
 
 MATCHERS = {}
